@@ -26,6 +26,7 @@ pub fn property() -> Property {
 fn gens(tier: Tier) -> Vec<Gen> {
     vec![
         Gen { name: "everyoffset", count: everyoffset_count(), exhaustive: true, run: run_everyoffset },
+        Gen { name: "write_to-everyoffset", count: (0..N_FIXED).map(|i| fixed_span(i) * 4).sum(), exhaustive: true, run: run_write_to },
         Gen { name: "random", count: tier.pick(3_000, 300_000), exhaustive: false, run: run_random },
         Gen { name: "large", count: tier.pick(150, 5_000), exhaustive: false, run: run_large },
         Gen { name: "nobody", count: 48, exhaustive: true, run: run_nobody },
@@ -45,6 +46,9 @@ pub struct Case {
 }
 
 const READ_SIZES: [usize; 6] = [1, 2, 7, 4096, 1 << 20, 65536];
+/// pseudo read sizes selecting `Response::write_to` / `split().2.write_to` instead of a read loop
+const WRITE_TO: usize = usize::MAX;
+const WRITE_TO_SPLIT: usize = usize::MAX - 1;
 
 pub fn run_case(ctx: &mut Ctx, rng: &mut Rng, c: &Case) {
     let b = build_response("HTTP/1.1 200 OK", &[], c.framing, &c.payload, &c.sizes, &c.styles, b"");
@@ -94,6 +98,56 @@ pub fn run_case(ctx: &mut Ctx, rng: &mut Rng, c: &Case) {
     };
     if world.trace(0).blocked_reads > 0 {
         ctx.violation("send-blocked-after-head", descr("send() returned Ok but had issued a read that would block on a real socket"));
+        return;
+    }
+    if c.read_size == WRITE_TO || c.read_size == WRITE_TO_SPLIT {
+        // (b') write_to is a delivery path too: whatever has arrived reaches the caller's writer
+        // before the transport is asked for bytes the server has not sent
+        struct Sink<'a> {
+            world: &'a World,
+            got_before_block: Vec<u8>,
+            got_total: usize,
+        }
+        impl std::io::Write for Sink<'_> {
+            fn write(&mut self, buf: &[u8]) -> std::io::Result<usize> {
+                if self.world.trace(0).blocked_reads == 0 {
+                    self.got_before_block.extend_from_slice(buf);
+                }
+                self.got_total += buf.len();
+                Ok(buf.len())
+            }
+            fn flush(&mut self) -> std::io::Result<()> {
+                Ok(())
+            }
+        }
+        let mut sink = Sink { world: &world, got_before_block: Vec::new(), got_total: 0 };
+        let res = if c.read_size == WRITE_TO_SPLIT { resp.split().2.write_to(&mut sink).map_err(|e| format!("{e:?}")) } else { resp.write_to(&mut sink).map_err(|e| format!("{e:?}")) };
+        ctx.count("write_to_histories", 1);
+        if sink.got_before_block.len() < available {
+            ctx.violation(
+                format!("write_to-withholds-available-data:{}", c.framing.name()),
+                descr(&format!("the writer had received {} of the {available} available bytes when write_to asked the transport for bytes the server has not sent ({} in total, result {res:?})", sink.got_before_block.len(), sink.got_total)),
+            );
+            return;
+        }
+        let n = sink.got_before_block.len().min(c.payload.len());
+        if sink.got_before_block[..n] != c.payload[..n] || sink.got_before_block.len() > c.payload.len() {
+            ctx.violation("delivered-bytes-differ", descr(&format!("{} bytes written by write_to are not the payload prefix", sink.got_before_block.len())));
+        }
+        if frame_complete && c.framing != Framing::Close {
+            ctx.count("eof_without_blocking_checked", 1);
+            let blocked = world.trace(0).blocked_reads;
+            if res.is_err() || blocked > 0 {
+                ctx.violation(format!("end-of-body-blocked:{}", c.framing.name()), descr(&format!("the whole frame had arrived but write_to gave {res:?} with {blocked} blocked transport reads")));
+            }
+        }
+        if available > 0 {
+            let mut key = b.wire.clone();
+            key.extend_from_slice(&(pause_at as u64).to_le_bytes());
+            key.push(c.seg_class);
+            key.extend_from_slice(&(c.read_size as u64).to_le_bytes());
+            ctx.nontrivial(&key);
+        }
         return;
     }
     // (b) everything available can be read without blocking
@@ -380,4 +434,22 @@ fn run_both_framings(ctx: &mut Ctx, _rng: &mut Rng, index: u64) {
     }
     ctx.count("both_framings_cases", 1);
     ctx.nontrivial(descr.as_bytes());
+}
+
+fn run_write_to(ctx: &mut Ctx, rng: &mut Rng, index: u64) {
+    let mut idx = index;
+    let mut bi = 0;
+    loop {
+        let n = fixed_span(bi) * 4;
+        if idx < n {
+            break;
+        }
+        idx -= n;
+        bi += 1;
+    }
+    let (framing, payload, sizes, styles) = fixed(bi);
+    let b = build_response("HTTP/1.1 200 OK", &[], framing, &payload, &sizes, &styles, b"");
+    let off = (idx / 4) as usize;
+    let c = Case { framing, payload, sizes, styles, pause_at: b.head_len + off, seg_class: (idx % 2) as u8, read_size: if (idx / 2) % 2 == 0 { WRITE_TO } else { WRITE_TO_SPLIT } };
+    run_case(ctx, rng, &c);
 }
